@@ -198,7 +198,15 @@ pub fn run_c43(args: &Args) -> i32 {
                 };
                 sig.push_u64(20 + kind as u64);
                 // target either the locally published key or a fresh one
-                let key = if kind == 3 || rng.bool() { local_key.clone() } else { keys[rng.usize(keys.len())].clone() };
+                // target the locally published key, or a key the node may or may not hold a record for; for the
+                // local-publisher case the local record is sometimes removed first (a stale replica must not
+                // resurrect it, a peer must not plant a record "owned" by the node)
+                let key = if rng.bool() { local_key.clone() } else { keys[rng.usize(keys.len())].clone() };
+                let removed_first = kind == 3 && key == local_key && rng.chance(1, 3);
+                if removed_first {
+                    rig.kad().remove_record(&kad::RecordKey::new(&local_key));
+                    history.push("local: remove_record(local-record)".into());
+                }
                 history.push(format!("p{from}: PUT_VALUE key={} publisher={}", String::from_utf8_lossy(&key), ["none", "sender", "stranger", "local-node"][kind]));
                 let before = rig.kad().store_mut().get(&kad::RecordKey::new(&key)).map(|r| r.into_owned());
                 if rig.request(from, &record_msg(&key, b"overwritten-by-peer", publisher.as_ref(), 0)).is_none() {
@@ -208,12 +216,17 @@ pub fn run_c43(args: &Args) -> i32 {
                 let after = rig.kad().store_mut().get(&kad::RecordKey::new(&key)).map(|r| r.into_owned());
                 if kind == 3 {
                     illegit += 1;
+                    check.count(if before.is_some() { "local_publisher_puts_on_held_key" } else { "local_publisher_puts_on_absent_key" }, 1);
                     if after != before {
                         check.violation(
-                            "put-value-with-local-publisher-changed-record",
+                            if before.is_some() { "put-value-with-local-publisher-changed-record" } else { "put-value-with-local-publisher-created-record" },
                             format!("PUT_VALUE naming the local node as publisher changed the local record: {:?} -> {:?}", before.map(|r| String::from_utf8_lossy(&r.value).to_string()), after.map(|r| String::from_utf8_lossy(&r.value).to_string())),
                             json!({"case": case_idx, "history": history}),
                         );
+                    }
+                    if removed_first {
+                        rig.kad().store_mut().remove(&kad::RecordKey::new(&local_key));
+                        let _ = rig.kad().store_mut().put(local_rec.clone());
                     }
                 } else {
                     legit += 1;
